@@ -1290,10 +1290,18 @@ class Interp:
             return deep_eq(a, b)
         if isinstance(op, ast.NotEq):
             return Not(deep_eq(a, b))
-        if isinstance(op, ast.Is):
-            return _canon_cls(a) is _canon_cls(b)
-        if isinstance(op, ast.IsNot):
-            return _canon_cls(a) is not _canon_cls(b)
+        if isinstance(op, (ast.Is, ast.IsNot)):
+            f = getattr(a, "__sym_is__", None)
+            r = None
+            if f is not None:
+                r = f(b)
+            else:
+                f = getattr(b, "__sym_is__", None)
+                if f is not None:
+                    r = f(a)
+            if r is None:
+                r = _canon_cls(a) is _canon_cls(b)
+            return r if isinstance(op, ast.Is) else Not(r)
         if isinstance(op, ast.In):
             return contains(b, a)
         if isinstance(op, ast.NotIn):
@@ -1394,10 +1402,12 @@ class Interp:
 
     def e_Call(self, e, sc):
         # super() without arguments
-        if isinstance(e.func, ast.Name) and e.func.id == "super" and not e.args:
+        if isinstance(e.func, ast.Name) and e.func.id == "super":
             h = self.hooks.get("super")
             if h is None:
                 raise Unsupported("super() without a model")
+            if e.args:
+                return h(sc, *[self.eval(a, sc) for a in e.args])
             return h(sc)
         f = self.eval(e.func, sc)
         args = []
